@@ -614,6 +614,8 @@ pub fn plan(tier: &str) -> (PropMeta, Vec<Job>) {
 
 pub fn run_job(job: &Job) -> JobResult {
     let cj: CrashJob = serde_json::from_value(job.spec.clone()).expect("crash job");
+    // recovery logs what it finds on disk: format it all, as the most verbose logging level would
+    crate::node::install_verbose_logging();
     let mut res = JobResult::default();
     let scratch = Scratch::new("C04-job");
     let tpl = build_template(&scratch, &cj.cfg, 2);
